@@ -26,6 +26,8 @@ Tenv(x, w) == IF w.bounds \in {"EXTERIOR", "GROUND", "ADIABATIC"}
 MultOf(x, w) == IF Has(x.spaces, w.space) THEN x.spaces[IdxOf(x.spaces, w.space)].mult ELSE 100
 \* class reported for an element: compass class only for vertical elements
 OrientOf(w) == IF w.tilt = "SIDE" THEN w.orient ELSE "HZ"
+\* multiplier of a window: that of its wall's space (100 = 1.00 when the wall or the space is missing)
+WinMultOf(x, j) == IF Has(x.walls, x.windows[j].wall) THEN MultOf(x, x.walls[IdxOf(x.walls, x.windows[j].wall)]) ELSE 100
 WinIdxOf(x, w) == { j \in DOMAIN x.windows : x.windows[j].wall = w.id }
 WinAreaOf(x, w) == LET S == WinIdxOf(x, w) IN
                    FoldLeft(LAMBDA acc, j : IF j \in S THEN acc + x.windows[j].area ELSE acc, 0,
@@ -46,9 +48,17 @@ WinPropsOk(x, p, j) ==
        /\ pv.tenv = Tenv(x, w) /\ pv.mult = MultOf(x, w) /\ pv.bounds = w.bounds
        /\ pv.tilt = w.tilt /\ pv.orient = OrientOf(w)
   ELSE /\ pv.tenv = FALSE /\ pv.mult = 100
+\* (net height, defined with the volumes below)
+NetHeightOfSpace(x, i) == x.spaces[i].h - (LET S == { k \in DOMAIN x.walls : (x.walls[k].tilt = "TOP" /\ x.walls[k].space = x.spaces[i].id)
+                                                                              \/ (x.walls[k].tilt = "BOTTOM" /\ x.walls[k].next = x.spaces[i].id) } IN
+                                          IF S = {} THEN 0
+                                          ELSE LET w == x.walls[Min(S)] IN
+                                               IF Has(x.wallcons, w.cons) /\ "thick" \in DOMAIN x.wallcons[IdxOf(x.wallcons, w.cons)]
+                                               THEN x.wallcons[IdxOf(x.wallcons, w.cons)].thick ELSE 0)
 SpaceAreaOf(x, s) == SumSeq(x.walls, LAMBDA w : IF w.space = s.id /\ w.tilt = "BOTTOM" THEN w.area ELSE 0)
 SpacePropsOk(x, p, i) ==
-  Abs(p.spaces[i].area - SpaceAreaOf(x, x.spaces[i])) <= 4 + Len(x.walls) \div 8
+  /\ Abs(p.spaces[i].area - SpaceAreaOf(x, x.spaces[i])) <= 4 + Len(x.walls) \div 8
+  /\ "hnet" \notin DOMAIN p.spaces[i] \/ p.spaces[i].hnet = None \/ Abs(p.spaces[i].hnet - NetHeightOfSpace(x, i)) <= 3
 
 (******************************* tolerances ********************************)
 \* |a - b| <= abs + r5 * 10^-5 * max(a, b)   (r5 = 20 is a relative tolerance of 2 * 10^-4: the
@@ -64,21 +74,31 @@ Scale(n, k) == BigMul(BigOf(n), Pow10(k))
 
 (*********************** reference area, volumes (C11) *********************)
 Habitable(s) == s.kind # "N"
+\* floor area of a space: its own floor elements (10^-4 m2); net height: storey height minus the thickness of the
+\* first ceiling element in the order of the model (the space's own TOP element, or the floor of the space above
+\* that names it as next), as the code documents it (10^-4 m)
+FloorAreaOf(x, i) == SpaceAreaOf(x, x.spaces[i])
+WallThick(x, w) == IF Has(x.wallcons, w.cons) /\ "thick" \in DOMAIN x.wallcons[IdxOf(x.wallcons, w.cons)]
+                   THEN x.wallcons[IdxOf(x.wallcons, w.cons)].thick ELSE 0
+IsCeilingOf(w, sid) == (w.tilt = "TOP" /\ w.space = sid) \/ (w.tilt = "BOTTOM" /\ w.next = sid)
+FirstCeiling(x, sid) == LET S == { k \in DOMAIN x.walls : IsCeilingOf(x.walls[k], sid) } IN
+                        IF S = {} THEN 0 ELSE WallThick(x, x.walls[Min(S)])
+NetHeightOf(x, i) == x.spaces[i].h - FirstCeiling(x, x.spaces[i].id)
 \* 10^-6 m2
 ARefBig(x, p) == BigSumSeq([i \in DOMAIN x.spaces |-> i],
                     LAMBDA i : IF x.spaces[i].inside /\ Habitable(x.spaces[i])
-                               THEN BigProd2(p.spaces[i].area, x.spaces[i].mult) ELSE BigZero)
+                               THEN BigProd2(FloorAreaOf(x, i), x.spaces[i].mult) ELSE BigZero)
 \* 10^-10 m3
 VolGrossBig(x, p) == BigSumSeq([i \in DOMAIN x.spaces |-> i],
                     LAMBDA i : IF x.spaces[i].inside
-                               THEN BigProd3(p.spaces[i].area, x.spaces[i].h, x.spaces[i].mult) ELSE BigZero)
+                               THEN BigProd3(FloorAreaOf(x, i), x.spaces[i].h, x.spaces[i].mult) ELSE BigZero)
 VolNetBig(x, p) == BigSumSeq([i \in DOMAIN x.spaces |-> i],
                     LAMBDA i : IF x.spaces[i].inside
-                               THEN BigProd3(p.spaces[i].area, p.spaces[i].hnet, x.spaces[i].mult) ELSE BigZero)
+                               THEN BigProd3(FloorAreaOf(x, i), NetHeightOf(x, i), x.spaces[i].mult) ELSE BigZero)
 \* net volume of the habitable spaces inside the envelope: the volume both ventilation rates must use
 VolInhNetBig(x, p) == BigSumSeq([i \in DOMAIN x.spaces |-> i],
                     LAMBDA i : IF x.spaces[i].inside /\ Habitable(x.spaces[i])
-                               THEN BigProd3(p.spaces[i].area, p.spaces[i].hnet, x.spaces[i].mult) ELSE BigZero)
+                               THEN BigProd3(FloorAreaOf(x, i), NetHeightOf(x, i), x.spaces[i].mult) ELSE BigZero)
 InKScope(x, w) == Tenv(x, w) /\ w.bounds \in {"EXTERIOR", "GROUND"}
 \* exposed gross area, 10^-6 m2
 ExposedBig(x) == BigSumSeq(x.walls, LAMBDA w : IF InKScope(x, w) THEN BigProd2(w.area, MultOf(x, w)) ELSE BigZero)
@@ -109,14 +129,14 @@ KWins(x)  == { j \in DOMAIN x.windows : \E i \in KWalls(x) : x.windows[j].wall =
 SeqOfSet(S, n) == SelectSeq([i \in 1..n |-> i], LAMBDA i : i \in S)
 \* 10^-6 m2 and 10^-10 W/K
 CatA(x, p, c)  == BigSumSeq(SeqOfSet(KWalls(x), Len(x.walls)),
-                    LAMBDA i : IF Cat(x.walls[i]) = c THEN BigProd2(p.walls[i].anet, p.walls[i].mult) ELSE BigZero)
+                    LAMBDA i : IF Cat(x.walls[i]) = c THEN BigProd2(p.walls[i].anet, MultOf(x, x.walls[i])) ELSE BigZero)
 CatAU(x, p, c) == BigSumSeq(SeqOfSet(KWalls(x), Len(x.walls)),
                     LAMBDA i : IF Cat(x.walls[i]) = c
-                               THEN BigProd3(p.walls[i].anet, p.walls[i].mult, UEff(p.walls[i])) ELSE BigZero)
+                               THEN BigProd3(p.walls[i].anet, MultOf(x, x.walls[i]), UEff(p.walls[i])) ELSE BigZero)
 WinA(x, p)  == BigSumSeq(SeqOfSet(KWins(x), Len(x.windows)),
-                    LAMBDA j : BigProd2(x.windows[j].area, p.wins[j].mult))
+                    LAMBDA j : BigProd2(x.windows[j].area, WinMultOf(x, j)))
 WinAU(x, p) == BigSumSeq(SeqOfSet(KWins(x), Len(x.windows)),
-                    LAMBDA j : BigProd3(x.windows[j].area, p.wins[j].mult, UEff(p.wins[j])))
+                    LAMBDA j : BigProd3(x.windows[j].area, WinMultOf(x, j), UEff(p.wins[j])))
 Cats == <<"walls", "roofs", "floors", "ground">>
 OpaqueA(x, p)  == BigSumSeq(Cats, LAMBDA c : CatA(x, p, c))
 OpaqueAU(x, p) == BigSumSeq(Cats, LAMBDA c : CatAU(x, p, c))
@@ -172,18 +192,18 @@ KOk(x, p, k) ==
 N50Walls(x) == { i \in DOMAIN x.walls : Tenv(x, x.walls[i]) /\ x.walls[i].bounds = "EXTERIOR" }
 N50Wins(x)  == { j \in DOMAIN x.windows : \E i \in N50Walls(x) : x.windows[j].wall = x.walls[i].id }
 C100Of(x, v) == IF Has(x.wincons, v.cons) THEN x.wincons[IdxOf(x.wincons, v.cons)].c100 ELSE 10000
-AoBig(x, p) == BigSumSeq(SeqOfSet(N50Walls(x), Len(x.walls)), LAMBDA i : BigProd2(p.walls[i].anet, p.walls[i].mult))
-AhBig(x, p) == BigSumSeq(SeqOfSet(N50Wins(x), Len(x.windows)), LAMBDA j : BigProd2(x.windows[j].area, p.wins[j].mult))
+AoBig(x, p) == BigSumSeq(SeqOfSet(N50Walls(x), Len(x.walls)), LAMBDA i : BigProd2(p.walls[i].anet, MultOf(x, x.walls[i])))
+AhBig(x, p) == BigSumSeq(SeqOfSet(N50Wins(x), Len(x.windows)), LAMBDA j : BigProd2(x.windows[j].area, WinMultOf(x, j)))
 \* 10^-8 m3/h
 ChAhBig(x, p) == BigSumSeq(SeqOfSet(N50Wins(x), Len(x.windows)),
-                    LAMBDA j : BigProd3(x.windows[j].area, p.wins[j].mult, C100Of(x, x.windows[j])))
+                    LAMBDA j : BigProd3(x.windows[j].area, WinMultOf(x, j), C100Of(x, x.windows[j])))
 CoRef(x) == IF x.meta.new THEN 1600 ELSE 2900
 \* 0.629 * (C * Ao + ChAh) in 10^-11 m3/h ; C in 10^-2
 Leak(x, p, c) == BigMulSmall(BigAdd(BigMulSmall(AoBig(x, p), c), ChAhBig(x, p)), 629)
 N50Ok(x, p, g, n) ==
   LET V == Scale(n.vol, 5)                      \* n50 [10^-4] * V [10^-2] * 10^5 = 10^-11
       tol(v) == BigAdd(BigMulSmall(V, 20), Scale(1, 7)) IN
-  /\ n.vol = g.vnet
+  /\ BigApprox(Scale(n.vol, 8), VolNetBig(x, p), Scale(6, 7), 10)      \* V: net volume of the spaces inside the envelope
   /\ BigApprox(Scale(n.wa, 4), AoBig(x, p), BigOf(20000), 20)
   /\ BigApprox(Scale(n.ha, 4), AhBig(x, p), BigOf(20000), 20)
   /\ BigApprox(Scale(n.hca, 6), ChAhBig(x, p), Scale(2, 6), 20)
@@ -212,7 +232,7 @@ FshOf(pv) == IF pv.fshov # None THEN pv.fshov ELSE IF pv.fsh # None THEN pv.fsh 
 GOf(x, p, v)  == IF Has(x.wincons, v.cons) THEN p.wincons[IdxOf(x.wincons, v.cons)].g  ELSE 7700
 FfOf(x, p, v) == IF Has(x.wincons, v.cons) THEN p.wincons[IdxOf(x.wincons, v.cons)].ff ELSE 2000
 \* area with multiplier, 10^-6 m2
-QA(x, p, j) == BigProd2(x.windows[j].area, p.wins[j].mult)
+QA(x, p, j) == BigProd2(x.windows[j].area, WinMultOf(x, j))
 \* orientation class of a window in scope: that of its wall, by the specification's own tables (Classifiers.tla
 \* through the concretiser), not the class the indicators report
 WinOrient(x, j) == OrientOf(x.walls[IdxOf(x.walls, x.windows[j].wall)])
